@@ -431,15 +431,18 @@ def dprint_dec(rep, mod):
     import_obligations(rep, 'R-DPRINT', it, run)
     # the text handed to debug_print starts at the cursor, i.e. at the digit stored last (most significant)
     pc = [c for c in f.calls() if c.callee == 'debug_print']
-    ok = False
+    ok = None
     if len(pc) == 1 and pc[0].ops[0].k == 'inst':
         cur = f.insts[pc[0].ops[0].id]
         if cur.op == 'phi' and cur.block is L['header']:
             latch = [v for (bb, v) in cur.incoming if f.bmap[bb] in L['blocks']]
             ok = len(latch) == 1 and latch[0].key() == st0.ops[1].key() and not any(
                 b in L['blocks'] for b in [pc[0].block])
-    rep.inst('R-DPRINT', fname, 'prints-from-the-most-significant-digit', ok, where(f),
-             'debug_print does not receive the cursor left by the digit loop (address of the last digit stored)')
+    if ok is not None:
+        # pointer-cursor form only; in any other form (index cursor, copy into a second buffer) the characters that reach the
+        # output are decided by c07_roundtrip (R-PRINT)
+        rep.inst('R-DPRINT', fname, 'prints-from-the-most-significant-digit', ok, where(f),
+                 'debug_print does not receive the cursor left by the digit loop (address of the last digit stored)')
     room = info.get('room')
     ok = room is not None and room >= N
     rep.inst('R-DPRINT', fname, 'buffer-holds-%d-digits-and-terminator' % N, ok, where(f),
@@ -615,6 +618,36 @@ def dprint_hex_n(rep, mod):
                 pre_dec = len(loads) == 1 and loads[0].ops[0].k == 'inst' and loads[0].ops[0].id == gl.id
                 ok = from_end and down and pre_dec
                 det = 'cursor starts at arg+n: %s, steps by -1: %s, reads after decrementing: %s' % (from_end, down, pre_dec)
+        elif not pph:
+            # index form: for (i = n; i != 0; --i) print(arg[i - 1])
+            recognised = False
+            for ph in [i for i in L['header'].insts if i.op == 'phi' and i.ty.get('k') == 'int']:
+                init = [v for (bb, v) in ph.incoming if f.bmap[bb] not in L['blocks']]
+                latch = [v for (bb, v) in ph.incoming if f.bmap[bb] in L['blocks']]
+                li = f.inst_of(latch[0]) if latch else None
+                if not init or li is None or li.ops[0].key() != ('i', ph.id) or li.ops[1].k != 'ci' or \
+                        (li.op, li.ops[1].ival) not in (('add', -1), ('sub', 1)):
+                    continue
+                from_end = strip(f, init[0]).k == 'arg' and strip(f, init[0]).argno == 1
+                loads = [i for b in L['blocks'] for i in b.insts if i.op == 'load']
+                if len(loads) != 1:
+                    continue
+                g = f.inst_of(loads[0].ops[0])
+                if g is None or g.op != 'getelementptr' or g.ops[0].k != 'arg' or g.ops[0].argno != 0:
+                    continue
+                st_ = [x for x in g.d['gep']['steps'] if x['k'] == 'index']
+                if len(st_) != 1 or st_[0]['stride'] != 1 or st_[0]['v'].get('k') != 'inst':
+                    continue
+                x = strip(f, V(st_[0]['v']))
+                xi = f.inst_of(x)
+                pre_dec = xi is not None and xi.ops and xi.ops[0].key() == ('i', ph.id) and len(xi.ops) > 1 and \
+                    xi.ops[1].k == 'ci' and (xi.op, xi.ops[1].ival) in (('add', -1), ('sub', 1))
+                recognised = True
+                ok = from_end and pre_dec
+                det = 'index starts at n: %s, element read is arg[i - 1]: %s' % (from_end, pre_dec)
+            if not recognised:
+                rep.defer_broken('debug_printhex_n: the byte walk is neither a pointer walk nor an index walk this rule recognises')
+                return
     rep.inst('R-DPRINT', fname, 'walks-from-the-most-significant-byte-down', ok, where(f), None if ok else det)
 
 
